@@ -5,6 +5,7 @@ open Neutrino.Import
 #print axioms C14_idempotent_partial
 #print axioms C14_failure_counterexample
 #print axioms C14_failure_partial
+#print axioms C14_source_facts
 #print axioms import_noop_when_full
 #print axioms failContent_mk
 #print axioms healthy_eq_mk
